@@ -208,6 +208,11 @@ func (n *SimNet) RoundTrip(req *http.Request) (*http.Response, error) {
 	case "empty":
 		resp.Body = io.NopCloser(bytes.NewReader(nil))
 		resp.ContentLength = 0
+	case "literal":
+		// a well-formed but unexpected document: the smallest JSON values, a lone line feed, a bare number
+		lit := []string{"null", "[]", "{}", "0", "\"\"", "true", "\n", "[null]", "{\"hashes\":null}", "-1"}[int(argN)%10]
+		resp.Body = io.NopCloser(strings.NewReader(lit))
+		resp.ContentLength = int64(len(lit))
 	case "contentlength":
 		// the response announces a body length it does not have (the header is the peer's to choose)
 		resp.ContentLength = argN
